@@ -169,7 +169,8 @@ class Sim:
                 if sim.kind == "waveshare":
                     raise io_.serial_asyncio.serial.SerialException("could not open port: No such file or directory")
                 raise OSError(113, "No route to host")
-            reader = asyncio.StreamReader(**({"limit": kw["limit"]} if "limit" in kw else {}))      # as open_connection does
+            lim = kw["limit"] if "limit" in kw else getattr(sim, "force_limit", None)       # force_limit: a small limit chosen by the harness
+            reader = asyncio.StreamReader(**({"limit": lim} if lim is not None else {}))      # as open_connection does
             conn = len(sim.conns) + 1
             for meth in ("readexactly", "readline"):
                 def wrap(orig, conn=conn):
